@@ -23,6 +23,11 @@ Driver glue for C19.
   `output_and_write_streams` (`out`) or `spawn_and_write_streams` + `wait` (`spawn`), into targets `v` (a `Vec`),
   `l` (`line_mapped(Vec, add_prefix("> "))`), `m` (`mapped(Vec, b'a', add_prefix("<"))`), `t` (`tee(line_mapped(Vec, "> "), Vec)`).
   Observation `o=<Output.stdout digest, - for spawn>/<target digest>[+<second tee target digest>];e=…;status=0`, or `timeout`.
+* `L  <out|spawn>  <stdout target>/<stderr target>  <items>`: a child with a lifetime; items as above (run in order) and `xo` / `xe` /
+  `xb.0.0.<ms>` = after the pause close stdout / stderr / both (the process lives on), `z.0.0.<ms>` = stay alive for that long.
+  Observation: as for `M`, followed by `;run=1|0|na;t=early|late|na`: for `spawn` and a child that stays alive >= 1000 ms after it
+  closed both streams, whether the child was still running (`try_wait() == None`) when `spawn_and_write_streams` returned, and
+  whether it returned more than 500 ms before the child's earliest possible exit; `na` otherwise (nothing to judge).
 -/
 namespace CnbVerif.DriverC19
 open CnbVerif MW Pipes Spec.Streaming
@@ -219,8 +224,72 @@ def handleM (entry mode targets items obs : String) : String × String :=
     (model, verdict)
   | _, _ => ("bad-op", "bad-op")
 
+/-- an item of an `L` script as an action of the specification's `Life` -/
+def parseLifeItem (s : String) : Option (Nat × Act) :=
+  match s.splitOn "." with
+  | [k, "0", "0", delay] =>
+    (match delay.toNat? with
+     | none => none
+     | some d =>
+       if k = "xo" then some (d, .close false) else if k = "xe" then some (d, .close true)
+       else if k = "xb" then some (d, .closeBoth) else if k = "z" then some (d, .idle)
+       else (parseItem s).map (fun (st, b) => (d, .write st b)))
+  | parts =>
+    (match parts with
+     | _ :: _ :: _ :: delay :: _ => (match delay.toNat?, parseItem s with | some d, some (st, b) => some (d, .write st b) | _, _ => none)
+     | _ => none)
+
+def parseLife (s : String) : Option Life := allSome ((splitList s ";").map parseLifeItem)
+
+/-- the child's events up to (and including) the close after which both streams are closed; `none`: it never closes both itself -/
+def eventsUntilBothClosed (acc : List CEv) : Life → Option (List CEv)
+  | [] => none
+  | (_, act) :: rest =>
+    let acc' := acc ++ (match act with | .close st => [CEv.close st] | .closeBoth => [CEv.close false, CEv.close true] | _ => [])
+    if acc'.contains (.close false) && acc'.contains (.close true) then some acc' else eventsUntilBothClosed acc' rest
+
+def handleL (entry targets items obs : String) : String × String :=
+  if entry ≠ "out" ∧ entry ≠ "spawn" then ("bad-op", "bad-op") else
+  match parseTargets targets, parseLife items with
+  | some (to, te), some life =>
+    let so := lifeBytes false life
+    let se := lifeBytes true life
+    let outPart (b : Bytes) : String := if entry = "out" then digest b else "-"
+    let bytesPart := "o=" ++ outPart so ++ "/" ++ targetSpec to so ++ ";e=" ++ outPart se ++ "/" ++ targetSpec te se ++ ";status=0"
+    let judged := entry = "spawn" ∧ (mustBeRunningAtReturn life).isSome
+    -- the model: has `spawn_and_write_streams` (as the source has it now) returned at the moment both streams are closed?
+    let modelRun : String :=
+      if ¬ judged then ";run=na;t=na"
+      else match eventsUntilBothClosed [] life with
+        | some pre => if returned spawnProg pre then ";run=1;t=early" else ";run=0;t=late"
+        | none => ";run=na;t=na"
+    let model := bytesPart ++ modelRun
+    let verdict :=
+      if obs = "timeout" then "fail:timeout (no return within the watchdog limit)"
+      else match obs.splitOn ";" with
+        | [o, e, st, run, t] =>
+          if o ++ ";" ++ e ++ ";" ++ st ≠ bytesPart then
+            (match bytesPart.splitOn ";" with
+             | [wo, we, _] =>
+               if o ≠ wo then "fail:stdout (Output/target " ++ String.singleton to ++ ") expected " ++ wo ++ " got " ++ o
+               else if e ≠ we then "fail:stderr (Output/target " ++ String.singleton te ++ ") expected " ++ we ++ " got " ++ e
+               else "fail:" ++ st
+             | _ => "fail:" ++ obs)
+          else if ¬ judged then (if run = "run=na" ∧ t = "t=na" then "ok" else "fail:unparsable-observation " ++ run ++ ";" ++ t)
+          else if mustBeRunningAtReturn life = some true then
+            (if run = "run=1" then (if t = "t=early" ∨ t = "t=late" then "ok" else "fail:unparsable-observation " ++ t)
+             else if run = "run=0" then
+               "fail:return-not-at-stream-close (the child stays alive " ++ toString (outlives false false life) ++
+                 " ms after closing both streams, yet it had already exited when spawn_and_write_streams returned; " ++ t ++ ")"
+             else "fail:unparsable-observation " ++ run)
+          else "ok"
+        | _ => "fail:" ++ obs
+    (model, verdict)
+  | _, _ => ("bad-op", "bad-op")
+
 def handle (fields : List String) (obs : String) : String × String :=
   match fields with
+  | ["L", entry, targets, items] => handleL entry targets items obs
   | ["A", m, p, chunks] => handleA m p chunks "-" obs
   | ["A", m, p, chunks, writers] => handleA m p chunks writers obs
   | ["M", entry, mode, targets, items] => handleM entry mode targets items obs
